@@ -200,7 +200,11 @@ func (c *conn) handleSubscribe(in *inEnvelope) error {
 		c.logger.FinishExecution(ctx, tags, time.Since(start))
 
 		if err != nil {
-			if ErrorCause(err) == context.Canceled {
+			// The subscription itself was cancelled (unsubscribe, or the connection
+			// went away): nobody is left to tell. A resolver that merely returns
+			// context.Canceled from a call of its own, while the subscription is
+			// alive, is a failing resolver like any other.
+			if ErrorCause(err) == context.Canceled && ctx.Err() != nil {
 				verifhook.At("conn.spawnClose", c, id, tags)
 				go c.closeOwnSubscription(id, &self)
 				return nil, err
